@@ -20,9 +20,19 @@ PROP = {'gen': ['base64'],
  'corr_check': 'SNT.Corr.C11Corr.c11_check (model Image/Kitty.v vs surf_n_term::KittyImageHandler::{draw, erase, handle}; property '
                'predicate Image/KittySpec.v check_history = independent kitty-graphics parser + terminal-side store applied to the '
                "implementation's bytes)",
- 'level_text': 'Coq theorems over an executable model of KittyImageHandler and an independent protocol-side reading of its bytes.',
+ 'level_text': 'Coq theorems over an executable model of KittyImageHandler (draw / erase / handle, ids, chunking) read through an '
+               'independent protocol side (parser of the escape codes, RFC 4648 decoder, terminal store of images and placements): '
+               'payload of one draw = row-major RGBA with declared s, v, chunks <= 4096, multiples of four, m=1 exactly on non-final '
+               'chunks (any image size, by induction over the chunking); over all histories no protocol error, every placement names '
+               'a transmitted image, pixels transmitted at most once between error responses; placement ids in 1..2^32-1, invertible '
+               'and injective for coordinates < 65536 except the forced pair (0,0)/(65535,65535) (pigeonhole theorem), erase removes '
+               'exactly the placement draw created; the model passes the very predicate applied to the implementation on every '
+               'well-formed case. Constants regenerated from the source each run; model tied to the code by the byte-for-byte '
+               'correspondence run.',
  'level_note': 'Trusted: Coq kernel + vm_compute; translate/kitty.py, translate/tables.py; hand-written model validated by the '
-               'correspondence run; Surface::hash (fnv) is an oracle whose value the harness supplies.',
+               'correspondence run; Image/KittySpec.v as the reading of the kitty graphics protocol document; Surface::hash modelled '
+               '(fnv-1a, Image/Fnv.v) and compared with the crate on every case; no 32-bit hash collision between the contents of '
+               'one history (hypothesis). No axioms (Print Assumptions: closed; coqchk clean).',
  'technique': 'Coq proof (induction over chunking and over histories, parser/printer round trip, refinement to a terminal-side store) '
               '+ regenerated constants + model/implementation correspondence',
  'design_ref': 'DESIGN.md 6.11',
@@ -38,7 +48,7 @@ PROP = {'gen': ['base64'],
                   'Image/KittySpec.v: the reading of the kitty graphics protocol document (parser, terminal-side store) the theorems are '
                   'stated against',
                   HARNESS],
- 'assumptions': ['Surface::hash (fnv-1a over height, width, pixels) is a deterministic function of the image content; its value is '
-                 'supplied per image by the harness; distinct contents in one history have distinct ids (no 32-bit hash collision)',
+ 'assumptions': ['distinct contents in one history have distinct image ids (no collision of the 64-bit fnv hash modulo 2^32-1); the hash '
+                 'function itself is modelled (Image/Fnv.v) and compared with the crate on every image of every case',
                  'images are well formed (their shape is a window of the backing vector, as produced by Image::new/from/crop)',
                  'writes to the output never fail']}
